@@ -258,9 +258,9 @@ def harnesses(world, tier, seed):
         ZoneLookup(name='lookup-2rec', nrec=2, maxdepth=2, qdepth=2 if q else 3, apexes=(1,) if q else (0, 1), types=('A', 'NS', 'CNAME') if q else ('A', 'NS', 'CNAME', 'TXT'),
                    bounds={'apex': 'z.' if q else 'root or z.', 'soa': 'present (minimum symbolic) or absent', 'records': '2, ordinary or wildcard, owner depth 0..2 with labels symbolic over {a,b}, type A/NS/CNAME' + ('' if q else '/TXT') + ', TTL and data symbolic',
                            'query': 'depth 0..%d, labels symbolic over {a,b,c}' % (2 if q else 3), 'qtype': 'symbolic over ' + str(QTYPES)},
-                   expected_classes=('answer', 'answer-apex', 'answer-wild', 'cname', 'cname-wild', 'referral', 'nameerror')),
+                   expected_classes=('answer', 'answer-apex', 'answer-wild', 'cname', 'cname-wild', 'referral', 'nameerror'), hash_orders=q),
     ]
     if not q:
-        hs.append(ZoneLookup(name='lookup-3rec', nrec=3, maxdepth=1, qdepth=2, apexes=(1,), types=('A', 'NS', 'CNAME'),
-                   bounds={'apex': 'z.', 'records': '3, owner depth 0..1', 'query': 'depth 0..2'}, expected_classes=('answer', 'cname', 'referral', 'nameerror')))
+        hs.append(ZoneLookup(name='lookup-3rec', nrec=3, maxdepth=1, qdepth=2, apexes=(1,), types=('A', 'NS'),
+                   bounds={'apex': 'z.', 'records': '3, owner depth 0..1, type A/NS', 'query': 'depth 0..2'}, expected_classes=('answer', 'referral', 'nameerror')))
     return hs, (1500 if q else 5400), None
